@@ -1,11 +1,14 @@
-import Infretis.Lemmas.RepexC07Clean
+import Infretis.Lemmas.RepexC07Chain
 import Infretis.Lemmas.RepexC07AsIs
 /-!
 # C07 — every job gets its own random stream
 
-Property theorems only.  Helper lemmas: `Infretis/Lemmas/RepexC07{Frame,Issue,Distinct,Count,Chain,Clean,AsIs}.lean`.
+Property theorems only.  Helper lemmas:
+`Infretis/Lemmas/RepexC07{Frame,Issue,Distinct,Count,Reissue,Chain,AsIs}.lean`.
 Model: `Infretis/Model/Repex.lean` (read-only here; tied to the real `REPEX_state` by
-`harness/repex_tie.py` / `harness/props/c07.py`).
+`harness/repex_tie.py` / `harness/props/c07.py`).  The model follows /repo commit 147c104: every
+`locked` record carries the ordinal of the job's child stream (`lockedOrd`), a job recorded in the
+restart file is re-issued under that ordinal (`mkPickedAt`), without advancing the spawn counter.
 
 **What a stream is here.**  A random stream is identified by the value
 `Stream = (entropy, key)` mirroring numpy's `SeedSequence(entropy, spawn_key)`.  The numpy fact
@@ -16,22 +19,27 @@ integrator seeds) are covered by the engine-side packages (C09 / C16: every logg
 job's stream) and by the tie's per-engine checks; this file decides the scheduler side.
 
 **The issue log.**  `sysStepJ` is `sysStep` with a ghost output (the job an event issued and the draw
-requests of its `pick()`); `sysStepJ_sys` proves it is `sysStep` on the state.  `issued y0 evs` =
-the jobs issued along `evs` from `y0`, in issue order (it stops at the first event that raises, so
-every theorem about `issued y0 evs` covers all histories, also those that end in an exception).
+requests of its `pick()`); `sysStepJ_sys` proves it is `sysStep` on the state.  `ghost y0 evs` = one
+`Entry` per issued job along `evs` from `y0`, in issue order: the job, the ordinal put on record
+with it, and whether it is a FRESH job (the spawn counter advanced — a new, distinct job) or the
+RE-ISSUE of a job recorded in the restart file (the same job again).  The log stops at the first
+event that raises, so statements about it cover histories that end in an exception as well.
+
+**Job identity.**  A re-issued job is the SAME job (same ensembles, same paths, its result was never
+consumed) and gets the very streams it had before the stop (`reissue_same_streams`).  "No two jobs
+receive the same stream" therefore reads: no two DISTINCT jobs — distinct ordinals — of a chain share
+a stream, and the `k`-th distinct job has `(seed, [k, j])` / `(seed, [k, j, 0])`.
 
 Quantifiers: every number of ensembles, workers, steps, every seed, every engine table, every
 event list (every completion order, every accept/reject outcome, every outcome of the random
 choices), every restart point (between events, or at the instant `treat_output` writes
-`restart.toml`), with and without jobs in flight.
+`restart.toml`), with and without jobs in flight, any number of restarts.
 
-**Finding (reproduced on the real code, see the report).**  Across a CHAIN of restarts the property
-fails when an earlier restart had jobs in flight: re-issued jobs consume new ordinals but stay
-counted as in flight, so `set_rgen()`'s `cstep + len(locked)` undercounts at the next restart and
-ordinals are re-used — `streams_pairwise_distinct_across_restarts_counterexample`.  One restart is
-always fine (`restart_continues_ordinals`, `streams_pairwise_distinct_across_restart`), and so are
-chains whose restart points have an exact in-flight record
-(`streams_pairwise_distinct_across_restarts_partial`).
+**Scope of the restart theorems** (stated in `ChainReach`, not hidden): the restarted sampler has
+the same number of ensembles, and its initiation loop re-issues ALL recorded jobs (as many `start`
+events as records, all succeeding; needs `workers ≥ #records` and `tsteps − cstep ≥ #records`).
+With fewer workers / remaining steps the code drops the un-re-issued records (those jobs never
+complete, their results are never consumed) and their ordinals may later go to fresh jobs.
 -/
 namespace Infretis.C07
 open Infretis.Repex
@@ -48,10 +56,10 @@ def FreshStart (seed : Nat) (y0 : Sys) : Prop :=
 
 theorem FreshStart.fields {seed : Nat} {y0 : Sys} (h : FreshStart seed y0) :
     y0.s.seed = seed ∧ y0.s.entropy = seed ∧ y0.s.spawned = 0 ∧ y0.s.mainDraws = 0 ∧
-      y0.s.restarted = false ∧ y0.s.locked = [] := by
+      y0.s.restarted = false ∧ y0.s.locked = [] ∧ y0.s.lockedOrd = [] ∧ y0.s.locked0Ord = [] := by
   obtain ⟨n, workers, tsteps, cstep, trajNum, occ, ensEng, locked0, paths, hl, _⟩ := h
-  obtain ⟨q, ql⟩ := loadPaths_quiet hl
-  exact ⟨q.seed, q.entropy, q.spawned, q.mainDraws, q.restarted, ql⟩
+  obtain ⟨q, ql, qo⟩ := loadPaths_quiet hl
+  exact ⟨q.seed, q.entropy, q.spawned, q.mainDraws, q.restarted, ql, qo, q.locked0Ord⟩
 
 /-- a fresh start as the sampler is actually set up: `cstep = 0`, no restart record, `n − 1 ≥ 1`
     initial paths with pairwise distinct numbers below `traj_num` (the hypotheses of C03's
@@ -68,14 +76,17 @@ theorem WellFormedFresh.fresh {seed : Nat} {y0 : Sys} (h : WellFormedFresh seed 
   obtain ⟨n, workers, tsteps, trajNum, occ, ensEng, paths, _, _, _, _, hl, hj⟩ := h
   exact ⟨n, workers, tsteps, 0, trajNum, occ, ensEng, [], paths, hl, hj⟩
 
-theorem WellFormedFresh.inv {seed : Nat} {y0 : Sys} (h : WellFormedFresh seed y0) :
-    Init y0 ∧ CountInv y0 := by
+/-- a well-formed fresh start begins a chain -/
+theorem WellFormedFresh.chain {seed : Nat} {y0 : Sys} (h : WellFormedFresh seed y0) :
+    ChainReach seed y0 [] := by
+  obtain ⟨h1, h2, h3, _, _, h6, h7, _⟩ := h.fresh.fields
   obtain ⟨n, workers, tsteps, trajNum, occ, ensEng, paths, hn, hlen, hnd, hlt, hl, hj⟩ := h
   have hy : y0 = { s := y0.s, jobs := [] } := by
     cases y0; simp only at hj; subst hj; rfl
-  rw [hy]
-  exact ⟨init_of_loadPaths n workers tsteps 0 trajNum seed occ ensEng false paths y0.s hn hlen hnd hlt hl,
-    countInv_of_loadPaths hl rfl rfl⟩
+  have hi : Init y0 := by
+    rw [hy]
+    exact init_of_loadPaths n workers tsteps 0 trajNum seed occ ensEng false paths y0.s hn hlen hnd hlt hl
+  exact ChainReach.fresh hi h1 h2 h3 (loadPaths_quiet hl).1.cstep h6 h7
 
 /-! ## A concrete system for the non-vacuity examples
 
@@ -110,6 +121,17 @@ def okOr {α : Type} (d : α) : Except Err α → α
   | .ok a => a
   | .error _ => d
 
+/-- what the examples display of a log entry: ordinal, fresh?, and per picked entry (ensemble, move
+    key, engine key) -/
+structure Shown where
+  ord : Nat
+  fresh : Bool
+  picked : List (Int × List Nat × List Nat)
+deriving DecidableEq, Repr
+
+def showLog (log : List Entry) : List Shown :=
+  log.map (fun e => ⟨e.ord, e.fresh, e.job.picked.map (fun p => (p.ens, p.rgen.key, p.rgenEng.key))⟩)
+
 theorem exS0_loaded : loadPaths exBlank exPaths = .ok exS0 := by decide +kernel
 
 theorem ex_wellFormed : WellFormedFresh 7 exSys :=
@@ -124,21 +146,30 @@ theorem ex_runs : ∃ y, run exSys exEvs = .ok y := ⟨okOr exSys (run exSys exE
 
 /-- **`stream_function_of_seed_and_ordinal`.**  In every history from a fresh start with configured
     seed `seed`, the `k`-th job issued (`k = 0, 1, 2, …` in issue order over the whole history,
-    whichever worker it goes to, whatever completed in between) has, for its `j`-th picked ensemble,
-    the move stream `(seed, [k, j])` and the engine stream `(seed, [k, j, 0])`. -/
+    whichever worker it goes to, whatever completed in between) is a fresh job recorded under the
+    ordinal `k` and has, for its `j`-th picked ensemble, the move stream `(seed, [k, j])` and the
+    engine stream `(seed, [k, j, 0])`. -/
 theorem stream_function_of_seed_and_ordinal (seed : Nat) (y0 : Sys) (h0 : FreshStart seed y0)
-    (evs : List Ev) (k : Nat) (job : Job) (hk : (issued y0 evs)[k]? = some job)
-    (j : Nat) (p : Picked) (hp : job.picked[j]? = some p) :
+    (evs : List Ev) (k : Nat) (e : Entry) (hk : (ghost y0 evs)[k]? = some e)
+    (j : Nat) (p : Picked) (hp : e.job.picked[j]? = some p) :
+    e.ord = k ∧ e.fresh = true ∧
     p.rgen = { entropy := seed, key := [k, j] } ∧ p.rgenEng = { entropy := seed, key := [k, j, 0] } := by
-  obtain ⟨_, h2, h3, _⟩ := h0.fields
-  have := issued_streams evs y0 k job hk j p hp
-  rw [h2, h3, Nat.zero_add] at this
-  exact this
+  obtain ⟨_, h2, h3, _, _, _, _, h8⟩ := h0.fields
+  obtain ⟨hall, hords⟩ := ghost_ords_of_no_record evs y0 h8
+  have hmem := List.mem_of_getElem? hk
+  have hord : e.ord = k := by
+    have := congrArg (fun l => l[k]?) hords
+    simp only [List.getElem?_map, hk, Option.map_some] at this
+    rw [List.getElem?_range' (getElem?_lt_of_some _ _ _ hk), h3] at this
+    simpa using this
+  have hst := (ghost_spec evs y0).1 e hmem j p hp
+  rw [h2, hord] at hst
+  exact ⟨hord, hall e hmem, hst⟩
 
 example : FreshStart 7 exSys ∧
-    (issued exSys exEvs).map (fun job => job.picked.map (fun p => (p.ens, p.rgen.key, p.rgenEng.key)))
-      = [[(-1, [0, 0], [0, 0, 0]), (0, [0, 1], [0, 1, 0])], [(1, [1, 0], [1, 0, 0])],
-         [(-1, [2, 0], [2, 0, 0])], [(1, [3, 0], [3, 0, 0])]] :=
+    showLog (ghost exSys exEvs)
+      = [⟨0, true, [(-1, [0, 0], [0, 0, 0]), (0, [0, 1], [0, 1, 0])]⟩, ⟨1, true, [(1, [1, 0], [1, 0, 0])]⟩,
+         ⟨2, true, [(-1, [2, 0], [2, 0, 0])]⟩, ⟨3, true, [(1, [3, 0], [3, 0, 0])]⟩] :=
   ⟨ex_fresh, by decide +kernel⟩
 
 /-- **the issue log is the scheduler's**: `sysStepJ` is `sysStep` on the state; after a history that
@@ -148,40 +179,60 @@ theorem issue_log_faithful (seed : Nat) (y0 y : Sys) (h0 : FreshStart seed y0) (
     (hr : run y0 evs = .ok y) :
     (∀ (z : Sys) (ev : Ev), sysStep z ev =
         (match sysStepJ z ev with | .ok r => .ok r.1 | .error e => .error e)) ∧
-    y.s.spawned = (issued y0 evs).length ∧ y.s.entropy = seed ∧ y.s.seed = seed ∧
+    y.s.spawned = (ghost y0 evs).length ∧ y.s.entropy = seed ∧ y.s.seed = seed ∧
     (∀ job ∈ y.jobs, job ∈ issued y0 evs) := by
-  obtain ⟨h1, h2, h3, _⟩ := h0.fields
-  obtain ⟨r1, r2, r3⟩ := run_spawned evs hr
-  refine ⟨sysStepJ_sys, by rw [r3, h3, Nat.zero_add], r2.trans h2, r1.trans h1, ?_⟩
-  intro job hj
-  rcases jobs_subset_issued evs hr job hj with h | h
-  · obtain ⟨_, _, _, _, _, _, _, _, _, _, hj0⟩ := h0
-    rw [hj0] at h
-    simp at h
-  · exact h
+  obtain ⟨h1, h2, h3, _, _, _, _, h8⟩ := h0.fields
+  obtain ⟨r1, r2, r3, _⟩ := run_spawned evs hr
+  obtain ⟨hall, _⟩ := ghost_ords_of_no_record evs y0 h8
+  refine ⟨sysStepJ_sys, ?_, r2.trans h2, r1.trans h1, ?_⟩
+  · rw [r3, h3, Nat.zero_add]
+    unfold freshOrds
+    rw [List.length_map, List.filter_eq_self.mpr hall]
+  · intro job hj
+    rcases jobs_subset_issued evs hr job hj with h | h
+    · obtain ⟨_, _, _, _, _, _, _, _, _, _, hj0⟩ := h0
+      rw [hj0] at h
+      simp at h
+    · exact h
 
-example : (okOr exSys (run exSys exEvs)).s.spawned = 4 ∧ (issued exSys exEvs).length = 4
+example : (okOr exSys (run exSys exEvs)).s.spawned = 4 ∧ (ghost exSys exEvs).length = 4
     ∧ (okOr exSys (run exSys exEvs)).jobs.length = 2 := by decide +kernel
 
 /-! ## 2. All streams of a history are pairwise distinct -/
 
 /-- **`streams_pairwise_distinct`.**  All move streams and all engine streams of all jobs issued in
-    a history — concurrent or successive — are pairwise distinct `Stream` values.  (From ANY state
-    `y0`, in particular from every fresh start; no hypothesis on `y0` is needed because the spawn
-    counter only ever goes up within one process.) -/
-theorem streams_pairwise_distinct (y0 : Sys) (evs : List Ev) : (allStreams (issued y0 evs)).Nodup :=
-  (issued_streams evs y0).nodup
+    a history from a fresh start — concurrent or successive — are pairwise distinct `Stream` values. -/
+theorem streams_pairwise_distinct (seed : Nat) (y0 : Sys) (h0 : FreshStart seed y0) (evs : List Ev) :
+    (allStreams (issued y0 evs)).Nodup := by
+  obtain ⟨_, _, _, _, _, _, _, h8⟩ := h0.fields
+  obtain ⟨_, hords⟩ := ghost_ords_of_no_record evs y0 h8
+  apply (ghost_spec evs y0).1.nodup
+  rw [hords]
+  exact List.nodup_range' 1
+
+/-- the same from ANY state (also a restarted one), for the fresh jobs of the history: the spawn
+    counter only ever goes up within one process -/
+theorem streams_pairwise_distinct_fresh (y0 : Sys) (evs : List Ev) :
+    (allStreams (((ghost y0 evs).filter (·.fresh)).map (·.job))).Nodup := by
+  obtain ⟨h1, h2, _⟩ := ghost_spec evs y0
+  have ht : Tagged y0.s.entropy ((ghost y0 evs).filter (·.fresh)) :=
+    fun e he => h1 e (List.mem_of_mem_filter he)
+  apply ht.nodup
+  unfold freshOrds at h2
+  rw [h2]
+  exact List.nodup_range' 1
 
 example : (allStreams (issued exSys exEvs)).length = 10 ∧ (allStreams (issued exSys exEvs)).Nodup :=
-  ⟨by decide +kernel, streams_pairwise_distinct exSys exEvs⟩
+  ⟨by decide +kernel, streams_pairwise_distinct 7 exSys ex_fresh exEvs⟩
 
 /-! ## 3. No job stream is the scheduler's own stream -/
 
-/-- **`streams_ne_scheduler`.**  No stream handed to a job has the empty spawn key; hence none is the
-    scheduler's own stream `mainStream s = (entropy, [])` of any state `s` (again from any `y0`). -/
+/-- **`streams_ne_scheduler`.**  No stream handed to a job (from any state, fresh or re-issued) has
+    the empty spawn key; hence none is the scheduler's own stream `mainStream s = (entropy, [])` of
+    any state `s`. -/
 theorem streams_ne_scheduler (y0 : Sys) (evs : List Ev) (x : Stream)
     (hx : x ∈ allStreams (issued y0 evs)) : x.key ≠ [] ∧ ∀ s : St, x ≠ mainStream s := by
-  have hne := (issued_streams evs y0).key_ne_nil hx
+  have hne := (ghost_spec evs y0).1.key_ne_nil hx
   exact ⟨hne, fun s hxs => hne (by rw [hxs]; rfl)⟩
 
 example : mainStream (okOr exSys (run exSys exEvs)).s = { entropy := 7, key := [] }
@@ -189,282 +240,221 @@ example : mainStream (okOr exSys (run exSys exEvs)).s = { entropy := 7, key := [
 
 /-! ## 4. Restarts -/
 
-/-- **`inflight_record_exact`** (the counting invariant behind `set_rgen()`): at every instant of a
-    history from a fresh start, `locked` lists exactly the jobs in flight (one record per job, in
-    order, with the job's path numbers) and
-    `jobs issued = completed steps + jobs in flight = cstep + len(locked)`. -/
-theorem inflight_record_exact (seed : Nat) (y0 y : Sys) (h0 : WellFormedFresh seed y0)
-    (evs : List Ev) (hr : run y0 evs = .ok y) :
-    y.s.locked.map (·.2) = y.jobs.map jobPns ∧ y.s.locked.length = y.jobs.length ∧
-      (issued y0 evs).length = y.s.cstep + y.s.locked.length ∧
-      y.s.spawned = y.s.cstep + y.s.locked.length := by
-  obtain ⟨hi, hc⟩ := h0.inv
-  obtain ⟨_, hc'⟩ := run_count evs hi.inv hc hr
-  obtain ⟨_, _, h3, _⟩ := h0.fresh.fields
-  obtain ⟨_, _, r3⟩ := run_spawned evs hr
-  refine ⟨hc'.lockedPns, hc'.len, ?_, hc'.count⟩
-  rw [← hc'.count, r3, h3, Nat.zero_add]
+/-- **`inflight_record_exact`** (the counting invariant behind `set_rgen()`), at every instant of
+    every chain of restarts: `locked` lists exactly the jobs in flight (one record per job, in order,
+    with the job's ensembles and path numbers), `lockedOrd` lists their ordinals — pairwise distinct,
+    all below the counter, and each job carries the streams of its recorded ordinal — and
+    `distinct jobs issued = spawned = completed steps + jobs in flight = cstep + len(locked)`. -/
+theorem inflight_record_exact (seed : Nat) (y : Sys) (log : List Entry) (h : ChainReach seed y log) :
+    y.s.locked = y.jobs.map jobRec ∧ y.s.lockedOrd.length = y.jobs.length ∧
+      (∀ jo ∈ y.jobs.zip y.s.lockedOrd, StreamsAt seed jo.2 jo.1.picked) ∧
+      y.s.lockedOrd.Nodup ∧ (∀ o ∈ y.s.lockedOrd, o < y.s.spawned) ∧
+      y.s.spawned = y.s.cstep + y.s.locked.length ∧ (freshOrds log).length = y.s.spawned := by
+  have hi := h.inv
+  refine ⟨hi.ninv.recd, hi.ninv.ordLen, ?_, hi.ninv.ordNodup, hi.ninv.ordLt, hi.ninv.count, ?_⟩
+  · have := hi.ninv.ordStreams
+    rw [hi.hentropy] at this
+    exact this
+  · rw [hi.fresh, List.length_range]
 
 /-- the same at the instant the code writes `restart.toml` (inside `treat_output` of the completing
-    job `k`, before the next job is drawn): the completed job's record is gone, and only it -/
-theorem inflight_record_exact_at_write (seed : Nat) (y0 y : Sys) (h0 : WellFormedFresh seed y0)
-    (evs : List Ev) (hr : run y0 evs = .ok y) (k : Nat) (status : Status) (newW : List (List Rat))
-    (s2 : St) (hm : midState y k status newW = .ok s2) :
-    s2.locked = y.s.locked.eraseIdx k ∧ s2.spawned = s2.cstep + s2.locked.length ∧
-      (issued y0 evs).length = s2.cstep + s2.locked.length := by
-  obtain ⟨hi, hc⟩ := h0.inv
-  obtain ⟨hi', hc'⟩ := run_count evs hi.inv hc hr
-  obtain ⟨m1, m2, _, _, m5, _⟩ := midState_count hi' hc' hm
-  obtain ⟨_, _, h3, _⟩ := h0.fresh.fields
-  obtain ⟨_, _, r3⟩ := run_spawned evs hr
-  refine ⟨m1, m2, ?_⟩
-  rw [← m2, m5, r3, h3, Nat.zero_add]
+    job `k`, before the next job is drawn): the completed job's record and ordinal are gone, and
+    only they -/
+theorem inflight_record_exact_at_write (seed : Nat) (y : Sys) (log : List Entry)
+    (h : ChainReach seed y log) (k : Nat) (status : Status) (newW : List (List Rat)) (s2 : St)
+    (hm : midState y k status newW = .ok s2) :
+    s2.locked = y.s.locked.eraseIdx k ∧ s2.lockedOrd = y.s.lockedOrd.eraseIdx k ∧
+      s2.locked = (y.jobs.eraseIdx k).map jobRec ∧
+      s2.spawned = s2.cstep + s2.locked.length ∧ (freshOrds log).length = s2.spawned := by
+  have hi := h.inv
+  obtain ⟨hm2, m1, m2, m3⟩ := midState_inv hi.ninv hm
+  exact ⟨m1, m2, hm2.recd, hm2.count, by rw [hi.fresh, List.length_range, m3]⟩
 
 example : (okOr exSys (run exSys exEvs)).s.cstep = 2
-    ∧ (okOr exSys (run exSys exEvs)).s.locked = [([-1], [3]), ([1], [2])] := by decide +kernel
+    ∧ (okOr exSys (run exSys exEvs)).s.locked = [([-1], [3]), ([1], [2])]
+    ∧ (okOr exSys (run exSys exEvs)).s.lockedOrd = [2, 3] := by decide +kernel
 
-/-- a restart of a fresh-start history (between two events) is a chain with an exact record -/
-theorem chain_of_restart (seed : Nat) (y0 y : Sys) (h0 : WellFormedFresh seed y0) (evs : List Ev)
-    (hr : run y0 evs = .ok y) (n workers tsteps : Nat) (occ : List (List Int))
-    (ensEng : List (List Nat)) (weightOf : Nat → List Rat) (s' : St)
-    (hre : restore (persist y.s) n workers tsteps occ ensEng weightOf = .ok s') :
-    ChainReach seed { s := s', jobs := [] } (issued y0 evs) := by
-  obtain ⟨h1, h2, h3, _⟩ := h0.fresh.fields
-  have hy0 : y0 = { s := y0.s, jobs := [] } := by
-    obtain ⟨_, _, _, _, _, _, _, _, _, _, _, _, hj⟩ := h0
-    cases y0; simp only at hj; subst hj; rfl
-  have c0 : ChainReach seed y0 [] := by rw [hy0]; exact ChainReach.fresh h1 h2 h3
-  have c1 := ChainReach.run c0 hr
-  rw [List.nil_append] at c1
-  exact ChainReach.restart c1 (inflight_record_exact seed y0 y h0 evs hr).2.2.2 hre
+/-- **`reissue_same_streams`.**  Stop a chain at any instant (between events), restart, let the
+    initiation loop re-issue the recorded jobs.  The `i`-th re-issued job is the `i`-th job that was
+    in flight at the stop (same ensembles, same path numbers), it is re-issued under the ordinal
+    recorded for that job, it receives exactly the move and engine streams that job had before the
+    stop, and the spawn counter is what it was at the stop. -/
+theorem reissue_same_streams (seed : Nat) (y : Sys) (log : List Entry) (h : ChainReach seed y log)
+    (workers tsteps : Nat) (occ : List (List Int)) (ensEng : List (List Nat))
+    (weightOf : Nat → List Rat) (s' : St)
+    (hre : restore (persist y.s) y.s.n workers tsteps occ ensEng weightOf = .ok s')
+    (pre : List Ev) (hlen : pre.length = y.s.locked.length)
+    (hst : ∀ ev ∈ pre, ∃ o d, ev = Ev.start o d) (y' : Sys)
+    (hr : run { s := s', jobs := [] } pre = .ok y') :
+    (ghost { s := s', jobs := [] } pre).length = y.jobs.length ∧ y'.s.spawned = y.s.spawned ∧
+    ∀ (i : Nat) (e : Entry) (job : Job), (ghost { s := s', jobs := [] } pre)[i]? = some e →
+      y.jobs[i]? = some job →
+      e.fresh = false ∧ y.s.lockedOrd[i]? = some e.ord ∧ jobRec e.job = jobRec job ∧
+      ∀ (j : Nat) (p q : Picked), e.job.picked[j]? = some p → job.picked[j]? = some q →
+        p.rgen = q.rgen ∧ p.rgenEng = q.rgenEng := by
+  have hi := h.inv
+  exact Infretis.Repex.reissue_same_streams hi.ninv.mid (by rw [hi.hentropy, hi.hseed]) hre hlen hst hr
 
-/-- the same for a restart from the file written inside `treat_output` -/
-theorem chain_of_restart_at_write (seed : Nat) (y0 y : Sys) (h0 : WellFormedFresh seed y0)
-    (evs : List Ev) (hr : run y0 evs = .ok y) (k : Nat) (status : Status) (newW : List (List Rat))
-    (s2 : St) (hm : midState y k status newW = .ok s2) (n workers tsteps : Nat)
-    (occ : List (List Int)) (ensEng : List (List Nat)) (weightOf : Nat → List Rat) (s' : St)
-    (hre : restore (persist s2) n workers tsteps occ ensEng weightOf = .ok s') :
-    ChainReach seed { s := s', jobs := [] } (issued y0 evs) := by
-  obtain ⟨h1, h2, h3, _⟩ := h0.fresh.fields
-  have hy0 : y0 = { s := y0.s, jobs := [] } := by
-    obtain ⟨_, _, _, _, _, _, _, _, _, _, _, _, hj⟩ := h0
-    cases y0; simp only at hj; subst hj; rfl
-  have c0 : ChainReach seed y0 [] := by rw [hy0]; exact ChainReach.fresh h1 h2 h3
-  have c1 := ChainReach.run c0 hr
-  rw [List.nil_append] at c1
-  exact ChainReach.restartMid c1 hm
-    (inflight_record_exact_at_write seed y0 y h0 evs hr k status newW s2 hm).2.1 hre
-
-/-- **`restart_continues_ordinals`.**  Stop a fresh-start history at any instant (any number `J` of
-    jobs issued, any number of them in flight — also none), restart from the image with ANY number
-    of workers / steps / engine table: in every continuation the `m`-th job issued after the restart
-    (re-issued or new) has the streams `(seed, [J + m, j])` / `(seed, [J + m, j, 0])`.
-    Re-issued jobs get NEW ordinals `J, J+1, …`, not their pre-restart streams: "a function of the
-    seed and the job's ordinal" holds with the ordinal counted over the whole chain. -/
-theorem restart_continues_ordinals (seed : Nat) (y0 y : Sys) (h0 : WellFormedFresh seed y0)
-    (evs : List Ev) (hr : run y0 evs = .ok y) (n workers tsteps : Nat) (occ : List (List Int))
-    (ensEng : List (List Nat)) (weightOf : Nat → List Rat) (s' : St)
-    (hre : restore (persist y.s) n workers tsteps occ ensEng weightOf = .ok s')
-    (evs' : List Ev) (m : Nat) (job : Job)
-    (hm : (issued { s := s', jobs := [] } evs')[m]? = some job)
-    (j : Nat) (p : Picked) (hp : job.picked[j]? = some p) :
-    p.rgen = { entropy := seed, key := [(issued y0 evs).length + m, j] } ∧
-      p.rgenEng = { entropy := seed, key := [(issued y0 evs).length + m, j, 0] } := by
-  obtain ⟨_, c2, c3, _⟩ := (chain_of_restart seed y0 y h0 evs hr n workers tsteps occ ensEng weightOf s' hre).streams
-  have := issued_streams evs' { s := s', jobs := [] } m job hm j p hp
-  rw [c2, c3] at this
+/-- the same for a restart from the file written inside `treat_output` (where the code writes it):
+    the jobs still in flight are all but the completing one -/
+theorem reissue_same_streams_at_write (seed : Nat) (y : Sys) (log : List Entry)
+    (h : ChainReach seed y log) (k : Nat) (status : Status) (newW : List (List Rat)) (s2 : St)
+    (hmid : midState y k status newW = .ok s2)
+    (workers tsteps : Nat) (occ : List (List Int)) (ensEng : List (List Nat))
+    (weightOf : Nat → List Rat) (s' : St)
+    (hre : restore (persist s2) s2.n workers tsteps occ ensEng weightOf = .ok s')
+    (pre : List Ev) (hlen : pre.length = s2.locked.length)
+    (hst : ∀ ev ∈ pre, ∃ o d, ev = Ev.start o d) (y' : Sys)
+    (hr : run { s := s', jobs := [] } pre = .ok y') :
+    (ghost { s := s', jobs := [] } pre).length = (y.jobs.eraseIdx k).length ∧
+    y'.s.spawned = y.s.spawned ∧
+    ∀ (i : Nat) (e : Entry) (job : Job), (ghost { s := s', jobs := [] } pre)[i]? = some e →
+      (y.jobs.eraseIdx k)[i]? = some job →
+      e.fresh = false ∧ s2.lockedOrd[i]? = some e.ord ∧ jobRec e.job = jobRec job ∧
+      ∀ (j : Nat) (p q : Picked), e.job.picked[j]? = some p → job.picked[j]? = some q →
+        p.rgen = q.rgen ∧ p.rgenEng = q.rgenEng := by
+  have hi := h.inv
+  obtain ⟨hm2, _, _, m3⟩ := midState_inv hi.ninv hmid
+  obtain ⟨_, _, m1, m2, _⟩ := midState_spec hmid
+  have := Infretis.Repex.reissue_same_streams hm2 (by rw [m2, m1, hi.hentropy, hi.hseed]) hre hlen hst hr
+  rw [m3] at this
   exact this
 
-/-- the same for a restart from the file written inside `treat_output` (where the code writes it) -/
-theorem restart_at_write_continues_ordinals (seed : Nat) (y0 y : Sys) (h0 : WellFormedFresh seed y0)
-    (evs : List Ev) (hr : run y0 evs = .ok y) (k : Nat) (status : Status) (newW : List (List Rat))
-    (s2 : St) (hmid : midState y k status newW = .ok s2) (n workers tsteps : Nat)
-    (occ : List (List Int)) (ensEng : List (List Nat)) (weightOf : Nat → List Rat) (s' : St)
-    (hre : restore (persist s2) n workers tsteps occ ensEng weightOf = .ok s')
-    (evs' : List Ev) (m : Nat) (job : Job)
-    (hm : (issued { s := s', jobs := [] } evs')[m]? = some job)
-    (j : Nat) (p : Picked) (hp : job.picked[j]? = some p) :
-    p.rgen = { entropy := seed, key := [(issued y0 evs).length + m, j] } ∧
-      p.rgenEng = { entropy := seed, key := [(issued y0 evs).length + m, j, 0] } := by
-  obtain ⟨_, c2, c3, _⟩ := (chain_of_restart_at_write seed y0 y h0 evs hr k status newW s2 hmid n workers
-    tsteps occ ensEng weightOf s' hre).streams
-  have := issued_streams evs' { s := s', jobs := [] } m job hm j p hp
-  rw [c2, c3] at this
-  exact this
-
-/-- **`streams_pairwise_distinct_across_restarts_partial`.**  Over a chain of any number of restarts
-    in which every restart image is taken from a state with an exact in-flight record
-    (`spawned = cstep + len(locked)`: the guard of `ChainReach.restart` / `.restartMid`), the `k`-th
-    job issued over the whole chain has the streams `(seed, [k, j])` / `(seed, [k, j, 0])`, all
-    streams of all jobs of all segments are pairwise distinct, and none is the scheduler's.
-    The guard holds at every instant of a segment that starts with an exact record and nothing to
-    re-issue (`exact_record_kept`): a fresh start, or a restart without jobs in flight.
-    It is `_partial` because after a restart WITH jobs in flight the guard fails
-    (`streams_pairwise_distinct_across_restarts_counterexample`). -/
-theorem streams_pairwise_distinct_across_restarts_partial (seed : Nat) (y : Sys) (js : List Job)
-    (h : ChainReach seed y js) :
-    (∀ (k : Nat) (job : Job), js[k]? = some job → ∀ (j : Nat) (p : Picked), job.picked[j]? = some p →
-        p.rgen = { entropy := seed, key := [k, j] } ∧ p.rgenEng = { entropy := seed, key := [k, j, 0] }) ∧
-    (allStreams js).Nodup ∧ (∀ x ∈ allStreams js, x.key ≠ [] ∧ ∀ s : St, x ≠ mainStream s) ∧
-    y.s.entropy = seed ∧ y.s.spawned = js.length := by
-  obtain ⟨_, c2, c3, c4⟩ := h.streams
-  refine ⟨?_, c4.nodup, ?_, c2, c3⟩
-  · intro k job hk j p hp
-    have := c4 k job hk j p hp
-    rw [Nat.zero_add] at this
-    exact this
+/-- **`streams_pairwise_distinct_across_restarts`** (FULL, any number of restarts, with and without
+    jobs in flight, every number of workers).  Over the log of a whole chain:
+    (a) every entry's job carries `(seed, [ord, j])` / `(seed, [ord, j, 0])` for its recorded ordinal;
+    (b) the `k`-th DISTINCT (fresh) job of the chain has ordinal `k`, and the spawn counter equals
+        the number of distinct jobs issued — a job's streams are a function of the seed and of the
+        job's ordinal counted over the whole chain;
+    (c) all streams of all distinct jobs are pairwise distinct;
+    (d) two entries with different ordinals have no stream in common; two entries with the same
+        ordinal (a job and its re-issues) have the same streams entry by entry;
+    (e) every entry — re-issues included — carries the ordinal of a distinct job issued earlier or
+        by that entry itself (no ordinal is invented);
+    (f) no stream is the scheduler's own. -/
+theorem streams_pairwise_distinct_across_restarts (seed : Nat) (y : Sys) (log : List Entry)
+    (h : ChainReach seed y log) :
+    (∀ e ∈ log, ∀ (j : Nat) (p : Picked), e.job.picked[j]? = some p →
+        p.rgen = { entropy := seed, key := [e.ord, j] } ∧
+        p.rgenEng = { entropy := seed, key := [e.ord, j, 0] }) ∧
+    (freshOrds log = List.range (freshOrds log).length ∧ y.s.spawned = (freshOrds log).length ∧
+      y.s.entropy = seed) ∧
+    (allStreams ((log.filter (·.fresh)).map (·.job))).Nodup ∧
+    (∀ e1 ∈ log, ∀ e2 ∈ log,
+      (e1.ord ≠ e2.ord → ∀ x ∈ allStreams [e1.job], x ∉ allStreams [e2.job]) ∧
+      (e1.ord = e2.ord → ∀ (j : Nat) (p q : Picked), e1.job.picked[j]? = some p →
+        e2.job.picked[j]? = some q → p.rgen = q.rgen ∧ p.rgenEng = q.rgenEng)) ∧
+    (∀ e ∈ log, ∃ e0 ∈ log, e0.fresh = true ∧ e0.ord = e.ord) ∧
+    (∀ x ∈ allStreams (log.map (·.job)), x.key ≠ [] ∧ ∀ s : St, x ≠ mainStream s) := by
+  have hi := h.inv
+  have hfl : (freshOrds log).length = y.s.spawned := by rw [hi.fresh, List.length_range]
+  refine ⟨fun e he j p hp => hi.tagged e he j p hp, ⟨by rw [hfl]; exact hi.fresh, hfl.symm, hi.hentropy⟩,
+    ?_, ?_, ?_, ?_⟩
+  · have ht : Tagged seed (log.filter (·.fresh)) := fun e he => hi.tagged e (List.mem_of_mem_filter he)
+    apply ht.nodup
+    have : (log.filter (·.fresh)).map (·.ord) = freshOrds log := rfl
+    rw [this, hi.fresh]
+    exact List.nodup_range
+  · intro e1 h1 e2 h2
+    exact ⟨fun hne => hi.tagged.disjoint h1 h2 hne, fun heq j p q hp hq => hi.tagged.same h1 h2 heq j p q hp hq⟩
+  · intro e he
+    have hlt := hi.ordLt e he
+    have hm : e.ord ∈ freshOrds log := by rw [hi.fresh]; exact List.mem_range.mpr hlt
+    unfold freshOrds at hm
+    obtain ⟨e0, he0, hord⟩ := List.mem_map.mp hm
+    obtain ⟨h1, h2⟩ := List.mem_filter.mp he0
+    exact ⟨e0, h1, h2, hord⟩
   · intro x hx
-    have hne := c4.key_ne_nil hx
+    have hne := hi.tagged.key_ne_nil hx
     exact ⟨hne, fun s hxs => hne (by rw [hxs]; rfl)⟩
 
-/-- **`streams_pairwise_distinct_across_restart`** (one restart, full).  All streams of all jobs
-    issued before the restart and after it — for every number of workers before and after, with
-    and without jobs in flight at the stop — are pairwise distinct, and none is the scheduler's. -/
-theorem streams_pairwise_distinct_across_restart (seed : Nat) (y0 y : Sys) (h0 : WellFormedFresh seed y0)
-    (evs : List Ev) (hr : run y0 evs = .ok y) (n workers tsteps : Nat) (occ : List (List Int))
-    (ensEng : List (List Nat)) (weightOf : Nat → List Rat) (s' : St)
-    (hre : restore (persist y.s) n workers tsteps occ ensEng weightOf = .ok s')
-    (evs' : List Ev) (y' : Sys) (hr' : run { s := s', jobs := [] } evs' = .ok y') :
-    (allStreams (issued y0 evs ++ issued { s := s', jobs := [] } evs')).Nodup ∧
-      ∀ x ∈ allStreams (issued y0 evs ++ issued { s := s', jobs := [] } evs'), ∀ s : St, x ≠ mainStream s := by
-  have c := ChainReach.run
-    (chain_of_restart seed y0 y h0 evs hr n workers tsteps occ ensEng weightOf s' hre) hr'
-  obtain ⟨_, h2, h3, _⟩ := streams_pairwise_distinct_across_restarts_partial seed _ _ c
-  exact ⟨h2, fun x hx => (h3 x hx).2⟩
-
-/-- the same for a restart from the file written inside `treat_output` -/
-theorem streams_pairwise_distinct_across_restart_at_write (seed : Nat) (y0 y : Sys)
-    (h0 : WellFormedFresh seed y0) (evs : List Ev) (hr : run y0 evs = .ok y) (k : Nat)
-    (status : Status) (newW : List (List Rat)) (s2 : St) (hmid : midState y k status newW = .ok s2)
-    (n workers tsteps : Nat) (occ : List (List Int)) (ensEng : List (List Nat))
-    (weightOf : Nat → List Rat) (s' : St)
-    (hre : restore (persist s2) n workers tsteps occ ensEng weightOf = .ok s')
-    (evs' : List Ev) (y' : Sys) (hr' : run { s := s', jobs := [] } evs' = .ok y') :
-    (allStreams (issued y0 evs ++ issued { s := s', jobs := [] } evs')).Nodup ∧
-      ∀ x ∈ allStreams (issued y0 evs ++ issued { s := s', jobs := [] } evs'), ∀ s : St, x ≠ mainStream s := by
-  have c := ChainReach.run
-    (chain_of_restart_at_write seed y0 y h0 evs hr k status newW s2 hmid n workers tsteps occ ensEng
-      weightOf s' hre) hr'
-  obtain ⟨_, h2, h3, _⟩ := streams_pairwise_distinct_across_restarts_partial seed _ _ c
-  exact ⟨h2, fun x hx => (h3 x hx).2⟩
-
-/-- **`exact_record_kept`**: the guard of the chain theorem holds at every instant (between events
-    and at the write of the restart file) of a segment that starts in a state satisfying C03's `Init`
-    with nothing on record and `spawned = cstep` — a fresh start (`cstep = 0`), or a restart whose
-    image had no job in flight (`spawned = cstep + 0`). -/
-theorem exact_record_kept (y1 y : Sys) (hi : Init y1) (hl : y1.s.locked = [])
-    (hj : y1.jobs = []) (hs : y1.s.spawned = y1.s.cstep) (evs : List Ev) (hr : run y1 evs = .ok y) :
-    y.s.spawned = y.s.cstep + y.s.locked.length ∧
-    ∀ k status newW s2, midState y k status newW = .ok s2 → s2.spawned = s2.cstep + s2.locked.length := by
-  have hc : CountInv y1 := ⟨by rw [hl, hj]; rfl, by rw [hs, hl]; rfl⟩
-  obtain ⟨hi', hc'⟩ := run_count evs hi.inv hc hr
-  exact ⟨hc'.count, fun k status newW s2 hm => (midState_count hi' hc' hm).2.1⟩
-
-/-- **`clean_restart_starts_exact`**: closes the loop for chains of restarts without jobs in flight
-    (in particular every single-worker chain restarted from the files the code writes, where the one
-    job has just completed).  In a segment that started exact (`Init`, nothing on record,
-    `spawned = cstep`), a restart image taken — between events or at the write inside `treat_output` —
-    from a state with no job on record rebuilds (same number of ensembles, any workers / steps /
-    engine table / recomputed weights) a state that again satisfies `Init`, has nothing on record and
-    `spawned = cstep`; by `exact_record_kept` the next segment keeps the guard, and so on. -/
-theorem clean_restart_starts_exact (y1 y : Sys) (hi : Init y1) (hl : y1.s.locked = [])
-    (hs : y1.s.spawned = y1.s.cstep) (evs : List Ev) (hr : run y1 evs = .ok y) :
-    (∀ (workers tsteps : Nat) (occ : List (List Int)) (ensEng : List (List Nat))
-        (weightOf : Nat → List Rat) (s' : St), y.s.locked = [] →
-        restore (persist y.s) y.s.n workers tsteps occ ensEng weightOf = .ok s' →
-        Init { s := s', jobs := [] } ∧ s'.locked = [] ∧ s'.spawned = s'.cstep) ∧
-    (∀ (k : Nat) (status : Status) (newW : List (List Rat)) (s2 : St) (workers tsteps : Nat)
-        (occ : List (List Int)) (ensEng : List (List Nat)) (weightOf : Nat → List Rat) (s' : St),
-        midState y k status newW = .ok s2 → s2.locked = [] →
-        restore (persist s2) s2.n workers tsteps occ ensEng weightOf = .ok s' →
-        Init { s := s', jobs := [] } ∧ s'.locked = [] ∧ s'.spawned = s'.cstep) := by
-  have hc : CountInv y1 := ⟨by rw [hl, hi.jobs]; rfl, by rw [hs, hl]; rfl⟩
-  obtain ⟨hi', _⟩ := run_count evs hi.inv hc hr
-  constructor
-  · intro workers tsteps occ ensEng weightOf s' hl' hre
-    exact clean_restart_is_init hi'.core hl' hre
-  · intro k status newW s2 workers tsteps occ ensEng weightOf s' hm hl' hre
-    exact clean_restart_is_init (midState_core hi' hm) hl' hre
-
-/-- non-vacuity: one worker; the job completes; the file written at that instant has no job on record -/
-def ex1Sys : Sys :=
-  { s := okOr exBlank (loadPaths (blank 4 1 10 0 3 7 [[-1]] [[0], [0], [0]] false []) exPaths), jobs := [] }
-
-def ex1Y : Sys := okOr ex1Sys (run ex1Sys [.start { t := 0, e := 0 }, .initDone])
-def ex1Mid : St := okOr exS0 (midState ex1Y 0 .rej [])
-def ex1S' : St := okOr exS0 (restore (persist ex1Mid) ex1Mid.n 1 10 [[-1]] [[0], [0], [0]] cxW)
-
-example : Init ex1Sys ∧ ex1Sys.s.locked = [] ∧ ex1Sys.s.spawned = ex1Sys.s.cstep
-    ∧ run ex1Sys [.start { t := 0, e := 0 }, .initDone] = .ok ex1Y
-    ∧ midState ex1Y 0 .rej [] = .ok ex1Mid ∧ ex1Mid.locked = [] ∧ ex1Mid.cstep = 1 ∧ ex1Mid.spawned = 1
-    ∧ restore (persist ex1Mid) ex1Mid.n 1 10 [[-1]] [[0], [0], [0]] cxW = .ok ex1S' ∧ ex1S'.spawned = 1 := by
-  refine ⟨?_, by decide +kernel, by decide +kernel, by decide +kernel, by decide +kernel,
-    by decide +kernel, by decide +kernel, by decide +kernel, by decide +kernel, by decide +kernel⟩
-  exact init_of_loadPaths 4 1 10 0 3 7 [[-1]] [[0], [0], [0]] false exPaths _ (by decide) (by decide)
-    (by decide) (by decide) (by decide +kernel)
+/-- **`restart_continues_ordinals`.**  After any chain (any restarts, with or without jobs in flight)
+    in which `J` distinct jobs were issued, the `m`-th job issued in any continuation is a fresh job
+    with ordinal `J + m` and streams `(seed, [J + m, j])` / `(seed, [J + m, j, 0])`. -/
+theorem restart_continues_ordinals (seed : Nat) (y : Sys) (log : List Entry)
+    (h : ChainReach seed y log) (evs : List Ev) (m : Nat) (e : Entry)
+    (hm : (ghost y evs)[m]? = some e) (j : Nat) (p : Picked) (hp : e.job.picked[j]? = some p) :
+    e.fresh = true ∧ e.ord = (freshOrds log).length + m ∧
+      p.rgen = { entropy := seed, key := [(freshOrds log).length + m, j] } ∧
+      p.rgenEng = { entropy := seed, key := [(freshOrds log).length + m, j, 0] } := by
+  have hi := h.inv
+  have hfl : (freshOrds log).length = y.s.spawned := by rw [hi.fresh, List.length_range]
+  have hmem := List.mem_of_getElem? hm
+  have hall := ghost_all_fresh evs hi.ninv.core.l0
+  obtain ⟨g1, g2, _⟩ := ghost_spec evs y
+  have hfil : (ghost y evs).filter (·.fresh) = ghost y evs := List.filter_eq_self.mpr hall
+  unfold freshOrds at g2
+  rw [hfil, List.length_map] at g2
+  have hord : e.ord = y.s.spawned + m := by
+    have := congrArg (fun l => l[m]?) g2
+    simp only [List.getElem?_map, hm, Option.map_some] at this
+    rw [List.getElem?_range' (getElem?_lt_of_some _ _ _ hm)] at this
+    simpa using this
+  have hst := g1 e hmem j p hp
+  rw [hi.hentropy, hord] at hst
+  rw [hfl]
+  exact ⟨hall e hmem, hord, hst⟩
 
 /-! ### concrete chain: fresh start, stop, restart with a job in flight, stop, restart
 
 Segment 1 (fresh, seed 7, 2 workers): job A (`[0-]`, ordinal 0), job B (`[1+]`, ordinal 1),
-initiation closes, B completes REJECTED; the restart file written at that instant records A in flight.
-Segment 2 (restart 1): A is re-issued (ordinal 2), a new job B' on `[1+]` is drawn (ordinal 3),
-initiation closes, B' completes REJECTED; the restart file records A in flight, `cstep = 2`.
-Segment 3 (restart 2): the counter is restored as `2 + 1 = 3`, so re-issued A gets ordinal 3 —
-the streams of the completed job B'. -/
+initiation closes, B completes REJECTED; the restart file written at that instant records A in
+flight with ordinal 0.
+Segment 2 (restart 1): A is re-issued under ordinal 0 (counter restored as `1 + 1 = 2`, untouched by
+the re-issue), a new job B' on `[1+]` is drawn (ordinal 2), initiation closes, B' completes REJECTED;
+the restart file records A (ordinal 0), `cstep = 2`.
+Segment 3 (restart 2): the counter is restored as `2 + 1 = 3` — the number of distinct jobs A, B, B' —
+A is re-issued under ordinal 0 again, and the next fresh job gets ordinal 3. -/
 
 def cxEvs : List Ev := [ .start { t := 0, e := 0 }, .start { t := 2, e := 2 }, .initDone ]
+def cxPre : List Ev := [ .start { t := 0, e := 0 } ]
+def cxEvs2 : List Ev := [ .start { t := 2, e := 2 }, .initDone ]
 
 def cx1 : Sys := okOr exSys (run exSys cxEvs)
 def cxMid1 : St := okOr exS0 (midState cx1 1 .rej [])
-def cxS2 : St := okOr exS0 (restore (persist cxMid1) 4 2 10 [[-1, -1]] [[0], [0], [0]] cxW)
-def cx2 : Sys := okOr exSys (run { s := cxS2, jobs := [] } cxEvs)
+def cxS2 : St := okOr exS0 (restore (persist cxMid1) cxMid1.n 2 10 [[-1, -1]] [[0], [0], [0]] cxW)
+def cx2r : Sys := okOr exSys (run { s := cxS2, jobs := [] } cxPre)
+def cx2 : Sys := okOr exSys (run cx2r cxEvs2)
 def cxMid2 : St := okOr exS0 (midState cx2 1 .rej [])
-def cxS3 : St := okOr exS0 (restore (persist cxMid2) 4 2 10 [[-1, -1]] [[0], [0], [0]] cxW)
-def cxEvs3 : List Ev := [ .start { t := 0, e := 0 } ]
+def cxS3 : St := okOr exS0 (restore (persist cxMid2) cxMid2.n 2 10 [[-1, -1]] [[0], [0], [0]] cxW)
+def cx3r : Sys := okOr exSys (run { s := cxS3, jobs := [] } cxPre)
 
 theorem cx_runs : run exSys cxEvs = .ok cx1 ∧ midState cx1 1 .rej [] = .ok cxMid1 ∧
-    restore (persist cxMid1) 4 2 10 [[-1, -1]] [[0], [0], [0]] cxW = .ok cxS2 ∧
-    run { s := cxS2, jobs := [] } cxEvs = .ok cx2 ∧ midState cx2 1 .rej [] = .ok cxMid2 ∧
-    restore (persist cxMid2) 4 2 10 [[-1, -1]] [[0], [0], [0]] cxW = .ok cxS3 ∧
-    (∃ y3, run { s := cxS3, jobs := [] } cxEvs3 = .ok y3) := by
+    restore (persist cxMid1) cxMid1.n 2 10 [[-1, -1]] [[0], [0], [0]] cxW = .ok cxS2 ∧
+    run { s := cxS2, jobs := [] } cxPre = .ok cx2r ∧ run cx2r cxEvs2 = .ok cx2 ∧
+    midState cx2 1 .rej [] = .ok cxMid2 ∧
+    restore (persist cxMid2) cxMid2.n 2 10 [[-1, -1]] [[0], [0], [0]] cxW = .ok cxS3 ∧
+    run { s := cxS3, jobs := [] } cxPre = .ok cx3r ∧
+    cxPre.length = cxMid1.locked.length ∧ cxPre.length = cxMid2.locked.length := by
   refine ⟨by decide +kernel, by decide +kernel, by decide +kernel, by decide +kernel, by decide +kernel,
-    by decide +kernel, ⟨okOr exSys (run { s := cxS3, jobs := [] } cxEvs3), by decide +kernel⟩⟩
+    by decide +kernel, by decide +kernel, by decide +kernel, by decide +kernel, by decide +kernel⟩
 
-/-- non-vacuity of the one-restart theorems: segment 2 continues at ordinal 2 with one job in flight
-    at the stop (and the record of the stop is exact: `2 = 1 + 1`) -/
-example : WellFormedFresh 7 exSys ∧ run exSys cxEvs = .ok cx1 ∧ midState cx1 1 .rej [] = .ok cxMid1
-    ∧ restore (persist cxMid1) 4 2 10 [[-1, -1]] [[0], [0], [0]] cxW = .ok cxS2
-    ∧ (issued exSys cxEvs).length = 2 ∧ cxMid1.cstep = 1 ∧ cxMid1.locked = [([-1], [0])]
-    ∧ cxS2.spawned = 2 ∧ cxS2.locked0 = [([0], [0])]
-    ∧ (issued { s := cxS2, jobs := [] } cxEvs).map (fun job => job.picked.map (fun p => (p.ens, p.rgen.key)))
-        = [[(-1, [2, 0])], [(1, [3, 0])]] :=
-  ⟨ex_wellFormed, cx_runs.1, cx_runs.2.1, cx_runs.2.2.1, by decide +kernel, by decide +kernel,
-    by decide +kernel, by decide +kernel, by decide +kernel, by decide +kernel⟩
+/-- the log of the concrete chain -/
+def cxLog : List Entry :=
+  ((([] ++ ghost exSys cxEvs) ++ ghost { s := cxS2, jobs := [] } cxPre) ++ ghost cx2r cxEvs2) ++
+    ghost { s := cxS3, jobs := [] } cxPre
 
-/-- non-vacuity of the chain theorem: the chain fresh → run → restart (at the write) → run -/
-example : ChainReach 7 cx2 (issued exSys cxEvs ++ issued { s := cxS2, jobs := [] } cxEvs) :=
-  ChainReach.run
-    (chain_of_restart_at_write 7 exSys cx1 ex_wellFormed cxEvs cx_runs.1 1 .rej [] cxMid1 cx_runs.2.1
-      4 2 10 [[-1, -1]] [[0], [0], [0]] cxW cxS2 cx_runs.2.2.1)
-    cx_runs.2.2.2.1
+/-- non-vacuity of the chain theorems: the concrete two-restart chain, each restart with a job in
+    flight, is a `ChainReach` -/
+theorem cx_chain : ChainReach 7 cx3r cxLog := by
+  have hst : ∀ ev ∈ cxPre, ∃ o d, ev = Ev.start o d := by
+    intro ev hev
+    simp only [cxPre, List.mem_singleton] at hev
+    exact ⟨_, _, hev⟩
+  obtain ⟨r1, r2, r3, r4, r5, r6, r7, r8, r9, r10⟩ := cx_runs
+  have c1 := ChainReach.run ex_wellFormed.chain r1
+  have c2 := ChainReach.restartMid c1 r2 r3 r9 hst r4
+  have c3 := ChainReach.run c2 r5
+  exact ChainReach.restartMid c3 r6 r7 r10 hst r8
 
-/-- **`streams_pairwise_distinct_across_restarts_counterexample`** (the code as it is, HEAD of /repo;
-    reproduced on the real `REPEX_state`).  On the concrete two-restart chain above, in which the
-    first restart had one job in flight: at the second stop the record is NOT exact
-    (`spawned = 4` but `cstep + len(locked) = 2 + 1`), the second restart restores the counter 3, and
-    the job re-issued in segment 3 (`[0-]`) receives the move stream `(7, [3, 0])` and the engine
-    stream `(7, [3, 0, 0])` that the job B' on `[1+]`, completed in segment 2, had: the streams of
-    the chain are not pairwise distinct, and the ordinal of the chain's 5th job is 3, not 4. -/
-theorem streams_pairwise_distinct_across_restarts_counterexample :
-    cxMid2.spawned = 4 ∧ cxMid2.cstep + cxMid2.locked.length = 3 ∧ cxS3.spawned = 3 ∧
-    (issued { s := cxS2, jobs := [] } cxEvs).map (fun job => job.picked.map (fun p => (p.ens, p.rgen, p.rgenEng)))
-      = [[(-1, ⟨7, [2, 0]⟩, ⟨7, [2, 0, 0]⟩)], [(1, ⟨7, [3, 0]⟩, ⟨7, [3, 0, 0]⟩)]] ∧
-    (issued { s := cxS3, jobs := [] } cxEvs3).map (fun job => job.picked.map (fun p => (p.ens, p.rgen, p.rgenEng)))
-      = [[(-1, ⟨7, [3, 0]⟩, ⟨7, [3, 0, 0]⟩)]] ∧
-    ¬ (allStreams (issued exSys cxEvs ++ issued { s := cxS2, jobs := [] } cxEvs ++
-        issued { s := cxS3, jobs := [] } cxEvs3)).Nodup := by
+example : showLog cxLog
+      = [⟨0, true, [(-1, [0, 0], [0, 0, 0])]⟩, ⟨1, true, [(1, [1, 0], [1, 0, 0])]⟩,
+         ⟨0, false, [(-1, [0, 0], [0, 0, 0])]⟩, ⟨2, true, [(1, [2, 0], [2, 0, 0])]⟩,
+         ⟨0, false, [(-1, [0, 0], [0, 0, 0])]⟩]
+    ∧ cxS2.spawned = 2 ∧ cxS2.locked0Ord = [some 0] ∧ cxMid2.spawned = 3 ∧ cxMid2.cstep = 2
+    ∧ cxMid2.lockedOrd = [0] ∧ cxS3.spawned = 3 ∧ cx3r.s.spawned = 3 := by
   refine ⟨by decide +kernel, by decide +kernel, by decide +kernel, by decide +kernel, by decide +kernel,
-    by decide +kernel⟩
+    by decide +kernel, by decide +kernel, by decide +kernel⟩
 
 /-! ## 5. The scheduler's own draws -/
 
@@ -477,39 +467,39 @@ theorem streams_pairwise_distinct_across_restarts_counterexample :
 theorem scheduler_draws_accounted (seed : Nat) (y0 y : Sys) (h0 : FreshStart seed y0) (evs : List Ev)
     (hr : run y0 evs = .ok y) :
     y.s.mainDraws = (schedDraws y0 evs).length ∧
-    ∀ jd ∈ ghost y0 evs, jd.2 = [] ∨ DrawShape jd.2 := by
+    ∀ e ∈ ghost y0 evs, e.draws = [] ∨ DrawShape e.draws := by
   obtain ⟨_, _, _, h4, h5, _⟩ := h0.fields
   obtain ⟨_, hm⟩ := run_mainDraws evs hr (Or.inl h5)
   exact ⟨by rw [hm, h4, Nat.zero_add], ghost_drawShape evs y0 (Or.inl h5)⟩
 
 example : (okOr exSys (run exSys exEvs)).s.mainDraws = 7 ∧ (schedDraws exSys exEvs).length = 7
-    ∧ (ghost exSys exEvs).map (fun jd => jd.2.length) = [3, 1, 2, 1] := by decide +kernel
+    ∧ (ghost exSys exEvs).map (fun e => e.draws.length) = [3, 1, 2, 1] := by decide +kernel
 
-/-- after a restart: the first fresh `pick_lock()` resumes the scheduler stream at the position saved
-    in the restart file (once), re-issued jobs draw nothing -/
+/-- after a restart: re-issued jobs draw nothing on the scheduler stream; the first fresh
+    `pick_lock()` resumes it at the position saved in the restart file (once) -/
 theorem scheduler_draws_after_restart (s s' : St) (o : PickOutcome) (d : Nat) (ps : List Picked)
     (ds : List Draw) (hp : pickLock s o d = .ok (s', ps, ds)) :
-    (s.locked0 ≠ [] → ds = []) ∧
+    (s.locked0 ≠ [] → ds = [] ∧ s'.mainDraws = s.mainDraws) ∧
     (s.locked0 = [] → s.restarted = true → s.rgenRestored = false →
       s'.mainDraws = d + ds.length ∧ s'.rgenRestored = true ∨ s'.restarted = false) := by
   constructor
   · intro hne
-    unfold pickLock at hp
-    split at hp
-    · rename_i h; exact absurd h hne
-    · split at hp
-      · exact absurd hp (by simp)
-      split at hp
-      · exact absurd hp (by simp)
-      simp only [Except.ok.injEq, Prod.mk.injEq] at hp
-      exact hp.2.2.symm
+    cases hl0 : s.locked0 with
+    | nil => exact absurd hl0 hne
+    | cons r rest =>
+      obtain ⟨enss0, trajs0⟩ := r
+      obtain ⟨s1, pairs, hre, _, rfl, hds⟩ := pickLock_reissue hl0 hp
+      exact ⟨hds, (reissue_quiet hre).1.mainDraws⟩
   · intro h0 hr hn
     obtain ⟨h1, h2⟩ := pickLock_draws_restored hp h0 hr hn
     rcases h2 with h2 | h2
     · exact Or.inr h2
     · exact Or.inl ⟨h1, h2⟩
 
-/-! ## 6. Historical record: the restart path before the repairs 96833bd / ec057e1 -/
+/-! ## 6. Historical record: the restart path before the repairs
+
+`setRgenAsIs` / `pickLockAsIs` (before 96833bd / ec057e1) and `pickLockFreshOrd` (before 147c104) live
+in `Lemmas/RepexC07AsIs.lean`; they are not part of the model the tie runs. -/
 
 /-- a concrete restarted 2-worker state as the pre-fix `__init__` left it: `cstep = 2`, seed 1,
     `set_rgen()` applied (entropy 0, counter 2) -/
@@ -531,7 +521,7 @@ def showPicked (ps : List Picked) : List (Int × Stream × Stream) := ps.map (fu
 /-- **`streams_collide_asIs_counterexample`** (pre-fix behaviour, kept as a record; fixed by ec057e1).
     After a restart at `cstep = 2` with two workers, the two concurrent jobs started by the two
     `pick_lock()` calls both got the move stream `(0, [2, 0])` and the engine stream `(0, [2, 0, 0])`.
-    (`pickLockAsIs_collide` proves the collision for every state, not only this one.) -/
+    (`streams_collide_asIs` proves the collision for every state, not only this one.) -/
 theorem streams_collide_asIs_counterexample :
     (twoPicks pickLockAsIs asIsS { t := 0, e := 0 } { t := 2, e := 2 }).map
         (fun r => (showPicked r.1, showPicked r.2))
@@ -556,8 +546,36 @@ theorem streams_collide_asIs (s s1 s2 : St) (o1 o2 : PickOutcome) (d1 d2 : Nat)
       p.rgen = q.rgen ∧ p.rgenEng = q.rgenEng :=
   pickLockAsIs_collide h0 hr hp1 hp2
 
-/-- the repaired `pick_lock()` on the same situation (seed 1, restart at `cstep = 2`, nothing in
-    flight): ordinals continue at `cstep + #in flight = 2`, then 3, with the configured seed -/
+/-- **`reissue_freshOrd_undercounts_asIs`** (between ec057e1 and 147c104; the finding of this
+    package, fixed by 147c104): for every state, re-issuing a recorded job under a FRESH ordinal
+    advances the counter while the job stays counted as in flight, so the surplus of `spawned` over
+    `cstep + #locked + #waiting` grows by one per re-issue; the next `set_rgen()` then restores a
+    counter that is too small by the number of re-issued jobs and ordinals are handed out twice. -/
+theorem reissue_freshOrd_undercounts_asIs (s s' : St) (o : PickOutcome) (d : Nat) (ps : List Picked)
+    (ds : List Draw) (hne : s.locked0 ≠ []) (hp : pickLockFreshOrd s o d = .ok (s', ps, ds)) :
+    s'.spawned + (s.cstep + s.locked.length + s.locked0.length)
+      = s.spawned + (s'.cstep + s'.locked.length + s'.locked0.length) + 1 ∧
+    StreamsAt s.entropy s.spawned ps :=
+  reissue_freshOrd_undercounts hne hp
+
+/-- **`streams_pairwise_distinct_across_restarts_asIs_counterexample`** (the chain collision before
+    147c104, on the concrete chain above): at restart 1 the record `A` waits with counter 2; the
+    as-is re-issue hands A the FRESH ordinal 2 (`(7, [2, 0])`) and moves the counter to 3 with A still
+    on record — `spawned = 3` but `cstep + #locked = 1 + 1`: a restart from here restores 2 and the
+    next job gets `(7, [2, 0])` again.  The repaired `pick_lock()` re-issues A under its recorded
+    ordinal 0 and leaves the counter at 2. -/
+theorem streams_pairwise_distinct_across_restarts_asIs_counterexample :
+    cxS2.spawned = 2 ∧ cxS2.cstep = 1 ∧ cxS2.locked0.length = 1 ∧
+    (match pickLockFreshOrd cxS2 { t := 0, e := 0 } 0 with
+      | .ok (s, ps, _) => some (showPicked ps, s.spawned, s.cstep + s.locked.length)
+      | .error _ => none) = some ([(-1, ⟨7, [2, 0]⟩, ⟨7, [2, 0, 0]⟩)], 3, 2) ∧
+    (match pickLock cxS2 { t := 0, e := 0 } 0 with
+      | .ok (s, ps, _) => some (showPicked ps, s.spawned, s.cstep + s.locked.length)
+      | .error _ => none) = some ([(-1, ⟨7, [0, 0]⟩, ⟨7, [0, 0, 0]⟩)], 2, 2) := by
+  refine ⟨by decide +kernel, by decide +kernel, by decide +kernel, by decide +kernel, by decide +kernel⟩
+
+/-- the repaired `pick_lock()` after a restart without recorded jobs (seed 1, restart at `cstep = 2`):
+    ordinals continue at `cstep + #in flight = 2`, then 3, with the configured seed -/
 example :
     (twoPicks pickLock (okOr exBlank (loadPaths (blank 4 2 10 2 3 1 [[-1, -1]] [[0], [0], [0]] true []) exPaths))
         { t := 0, e := 0 } { t := 2, e := 2 }).map (fun r => (showPicked r.1, showPicked r.2))
